@@ -191,7 +191,11 @@ def run(tier, rep):
     cl = json.load(open(co))
     rep.add(evaluations=cl["trials"])
     rep.cov["polydisperse_crowds"] = {"searches": cl["trials"], "planted_pairs": cl["pairs"]}
+    rep.cov["bounce_rows"] = cl.get("bounce_rows")
     for v in cl["violations"]:
+        if v.get("bounce"):
+            rep.violation("bounce:%s:%s" % (v["mode"], v["order"]), "hard-sphere resolve after a %s search, pair %s: %s" % (v["mode"], v["order"], v["bounce"]), v)
+            continue
         rep.violation("crowd:%s:%s:%s" % (v["mode"], v["order"], "missed" if v["missed"] else "spurious"),
                       "%s search over a polydisperse crowd inserted in %s radius order: misses planted pairs %s (radii %s), reports unplanted pairs %s (seed %s, trial %s)"
                       % (v["mode"], v["order"], v["missed"], v["radii"], v["spurious"], v["seed"], v["trial"]), v)
